@@ -456,6 +456,11 @@ func (r *errorReader) itf8() int32 {
 	}
 	_, r.err = io.ReadFull(r, buf[1:n])
 	if r.err != nil {
+		if r.err == io.EOF {
+			// The first byte announced more bytes: the stream
+			// is truncated, this is not a clean end.
+			r.err = io.ErrUnexpectedEOF
+		}
 		return 0
 	}
 	i, _, ok = itf8.Decode(buf[:n])
@@ -501,6 +506,11 @@ func (r *errorReader) ltf8() int64 {
 	}
 	_, r.err = io.ReadFull(r, buf[1:n])
 	if r.err != nil {
+		if r.err == io.EOF {
+			// The first byte announced more bytes: the stream
+			// is truncated, this is not a clean end.
+			r.err = io.ErrUnexpectedEOF
+		}
 		return 0
 	}
 	i, _, ok = ltf8.Decode(buf[:n])
